@@ -17,6 +17,8 @@
 #  + oracle hll_composite_jump_at_table_end); C06-3 get_icon_confidence_ub reading HIP_LOW_SIDE_DATA -> CAUGHT.
 #  C02-6 (bounds_on_ratios_in_theta_sketched_sets::upper_bound_for_b_over_a taking f from sketch A) -> CAUGHT by C06 (ops 12/13: the model chooses
 #  (count_a, count_b, f = theta(B)) and kappa = 2*hacky_adjuster(f) bit-exactly; the exp/pow part comes through the environment at that kappa).
+#  C06-12 (ICON threshold compared with c/(2k)) -> CAUGHT: branch selection and the exponential branch (given pow(2, c/k)) are modelled bit-exactly,
+#  grid straddles 5.6k/5.7k/11.4k, oracle icon_not_monotone / icon_jump_at_threshold / icon_below_coupons.
 # NOT observable (equivalent mutant, reported): M3 "ICON clamp removed" (`if (result >= c) return result; else return c` -> `return result`):
 #  an exhaustive scan of lg_k 4..26 x every coupon count of the polynomial branch (up to 3*10^6) shows the clamp never fires, so no
 #  output changes; the clamp itself is covered by theorem C06_clamps_never_below_count.
@@ -271,6 +273,8 @@ def gen_icon(rng, tier):
         cs = [0, 1, 2, 3, 4, k // 2, k - 1, k, k + 1, 2 * k, (27 * k) // 8, 3 * k, 4 * k, 5 * k,
               int(5.6 * k) - 1, int(5.6 * k), int(5.6 * k) + 1, int(5.6 * k) + 2, int(5.7 * k) - 1, int(5.7 * k), int(5.7 * k) + 1, int(5.7 * k) + 2,
               6 * k, 10 * k, 20 * k]
+        for r in (5.5, 5.59, 5.6, 5.61, 5.69, 5.7, 5.71, 6, 8, 11.3, 11.4, 11.5, 20):
+            cs += [int(r * k) - 1, int(r * k), int(r * k) + 1, int(r * k) + 2]
         cs += [rng.randrange(2, 6 * k) for _ in range(20 if tier == 'quick' else 400)]
         cs += list(range(2, 40))
         ops = [[7, lgk, c] for c in sorted(set(c for c in cs if 0 <= c < 2**32))]
@@ -398,6 +402,7 @@ def oracle(case, irecs, mrecs):
     fails = []
     relerr = {}
     tail_budget = 12
+    icon_pts = {}
     prev_comp = None
     for i, op in enumerate(case['ops']):
         if i >= len(irecs):
@@ -484,6 +489,7 @@ def oracle(case, irecs, mrecs):
                     fails.append(dict(sig='hll_empty', what='empty sketch: est %r bounds %r' % (est, b), op_index=i))
         elif code == 7 and F:
             v = b2d(F[0]); c = op[2]
+            icon_pts.setdefault(op[1], []).append((c, v, i))
             if isnan(v) or v < c:
                 fails.append(dict(sig='icon_below_coupons', what='ICON estimate %r below the coupon count %d (lg_k %d)' % (v, c, op[1]), op_index=i))
             if c < 2 and v != float(c):
@@ -513,6 +519,16 @@ def oracle(case, irecs, mrecs):
             triple_checks('bbp', est, b, i, fails)
             if any(not (0.0 <= x <= 1.0) for x in b):
                 fails.append(dict(sig='bbp_range', what='bound outside [0,1]: %r' % b, op_index=i))
+    for lgk, pts in icon_pts.items():
+        pts.sort(); k = float(1 << lgk); thr = (5.7 if lgk < 14 else 5.6) * k
+        for (c1, v1, i1), (c2, v2, i2) in zip(pts, pts[1:]):
+            if isnan(v1) or isnan(v2):
+                continue
+            if v2 < v1:
+                fails.append(dict(sig='icon_not_monotone', what='ICON estimate decreases: lg_k %d, %d coupons -> %r, %d coupons -> %r' % (lgk, c1, v1, c2, v2), op_index=i2)); break
+            if c2 == c1 + 1 and c1 <= thr < c2 and v1 > 0 and (v2 - v1) / v1 > 1.2 * math.log(2.0) / k + 5e-6:
+                fails.append(dict(sig='icon_jump_at_threshold', what='ICON estimate jumps at the polynomial/exponential threshold: lg_k %d, %d coupons -> %r, %d coupons -> %r'
+                                  % (lgk, c1, v1, c2, v2), op_index=i2))
     for (upper, ooo, lgk), d in relerr.items():
         if len(d) == 3 and not (d[1][0] < d[2][0] < d[3][0]):
             fails.append(dict(sig='relerr_monotone', what='|relative error| not increasing in std devs for lg_k %d upper %d unioned %d: %r' %
